@@ -9,6 +9,7 @@ import json
 import math
 import operator
 import random
+import struct
 import sys
 import time
 
@@ -290,6 +291,11 @@ def run_case(case, fail, stats):
                     pass
 
 
+def fhex(x):
+    """a double as the hex of its little-endian bytes (the float encoding of the driver's line protocol)"""
+    return struct.pack("<d", float(x)).hex()
+
+
 def run_assign_case(case, fail, stats):
     """statements `name = expression` (the other alternative of the grammar's start rule): evaluated deferred they DEFINE
     the variable through the manager; a later statement reads it.  After every statement and after every later change
@@ -299,6 +305,17 @@ def run_assign_case(case, fail, stats):
     env, madexpr, madeval, variables, elements = mk_env(vals, mode)
     case["_tokens"], case["_tree"] = None, None
     targets = [st.split("=")[0].strip() for st in stmts]
+    # for the model (driver op on `stmt_tokens`): lark's token stream of every statement, the plain values and the element
+    # attributes as exact doubles, and — filled in below — what the real evaluators gave after every step
+    lark = PLAIN if mode == "item" else PLAIN_ATTR
+    try:
+        case["_stmt_tokens"] = [[[t.type, str(t)] for t in lark.lex(st)] for st in stmts]
+    except Exception:
+        case["_stmt_tokens"] = None
+    case["_plain"] = [[k, fhex(v)] for k, v in sorted(vals.items())]
+    case["_elems"] = [[e, k, fhex(v)] for e, d in sorted(ELEMS.items()) for k, v in sorted(d.items())]
+    case["_updates"] = []
+    record = case["_assign"] = {"targets": targets, "steps": []}
     if mode not in _PLAIN:
         d = {}
         _PLAIN[mode] = (d, MU.MadxEval(d, math, elements, get=mode).eval)
@@ -328,6 +345,7 @@ def run_assign_case(case, fail, stats):
             return
         stats["assign_cases"] = stats.get("assign_cases", 0) + 1
         got = {t: outcome(lambda: variables.get(t)) for t in targets}
+        record["steps"].append({"def": got, "imm": want})
         if got != want:
             fail("C19", "assigned-variable-differs-from-immediate", {"stmts": stmts, "mode": mode, "vals": vals, "holds": got, "immediate": want})
             return
@@ -342,6 +360,8 @@ def run_assign_case(case, fail, stats):
             if want is None:
                 return
             got = {t: outcome(lambda: variables.get(t)) for t in targets}
+            case["_updates"].append([name, fhex(v)])
+            record["steps"].append({"def": got, "imm": want})
             stats["assign_updates"] = stats.get("assign_updates", 0) + 1
             if got != want:
                 fail("C19", "assigned-variable-stale-after-update", {"stmts": stmts, "mode": mode, "vals": vals, "then": [name, v],
@@ -414,6 +434,19 @@ def main():
                 cases.append({"kind": "assign", "stmts": ["t1__ = el->l*k1", "t2__ = -t1__", "t3__ = t2__*t1__ + a"], "mode": mode,
                               "vals": {"a": 2.0, "b": 3.0, "c.d": 4.0, "k1": 0.5, "x_2": -1.5, "zero": 0.0},
                               "then": [["k1", 2.0], ["a", 1.0]]})
+                # for the model's float algebra (driver op on statement lists): every NUMBER form, division, powers, the
+                # one- and two-argument functions it has, signed zeros and an element attribute behind a sign
+                base = {"a": 2.0, "b": 3.0, "c.d": 4.0, "k1": 0.5, "x_2": -1.5, "zero": 0.0}
+                cases.append({"kind": "assign", "mode": mode, "vals": dict(base),
+                              "stmts": ["m1__ = 1 + 2*a", "m2__ = m1__ * 0.5 + 2.", "m3__ = m2__ * 1e2 - 1.5e-1", "m4__ = m3__ / 10 + 4 * 3 - 0 + .25 + 1E+1 + 12.5e-3"],
+                              "then": [["a", 0.1], ["a", -7.25], ["b", 1.0]]})
+                cases.append({"kind": "assign", "mode": mode, "vals": dict(base),
+                              "stmts": ["d1__ = a / b", "d2__ = d1__ / (c.d - 1) - q.1->l / el->k", "d3__ = -d2__ ^ 2 + b ** -1 + d1__ ^ 0.5", "d4__ = 2 ^ 3 ^ 2 - d3__ ** 3"],
+                              "then": [["a", 5.0], ["b", -1.0], ["c.d", 0.5], ["a", 1e-3]]})
+                cases.append({"kind": "assign", "mode": mode, "vals": dict(base),
+                              "stmts": ["s1__ = sin(a) + cos(b)", "s2__ = exp(s1__) * sqrt(c.d + k1)", "s3__ = atan2(s2__, k1 - 1) - fabs(x_2) + atan2(zero, 0 - 1)",
+                                        "s4__ = +s3__ - -s2__ * exp(-a ^ 2 / 2)"],
+                              "then": [["a", 0.3], ["zero", -0.0], ["k1", 2.0], ["x_2", 1e10], ["c.d", 1e-300]]})
         for i in range(a.n):
             if i % 8 == 7:
                 vals = {v: rng.choice([0.0, 1.0, 2.0, -1.5, 0.25, 3.0]) for v in VARS}
@@ -451,6 +484,12 @@ def main():
         line["hist"] = i
         line["tokens"] = case.get("_tokens")
         line["impl"] = {"tree": case.get("_tree")}
+        for k in ("stmt_tokens", "plain", "elems", "updates"):
+            line.pop(k, None)
+        if case.get("kind") == "assign" and case.get("_stmt_tokens") is not None and case["_assign"]["steps"]:
+            line["stmt_tokens"] = case["_stmt_tokens"]
+            line["plain"], line["elems"], line["updates"] = case["_plain"], case["_elems"], case["_updates"]
+            line["impl"]["assign"] = case["_assign"]
         lines.append(line)
     with open(a.out + ".ops.jsonl", "w") as f:
         for ln in lines:
